@@ -99,8 +99,12 @@ impl<'i, R: RuleType> FlatPairs<'i, R> {
 
 impl<R: RuleType> ExactSizeIterator for FlatPairs<'_, R> {
     fn len(&self) -> usize {
-        // Tokens len is exactly twice as flatten pairs len
-        (self.end - self.start) >> 1
+        // One pair per `Start` token left in the window. (Halving the number of tokens is only
+        // right while the window is balanced: after `next()` it still holds the `End` tokens of
+        // the pairs already yielded, and after `next_back()` it ends in the middle of them.)
+        (self.start..self.end)
+            .filter(|&index| self.is_start(index))
+            .count()
     }
 }
 
